@@ -31,18 +31,24 @@ def _coq_eval(ctx):
                 # the criterion is violated
                 "From AGH Require Import Proofs.ConcGate Proofs.LockTableGate Gen.LockTableAcq.\n"
                 "Definition NBADGATE := Eval vm_compute in List.length (ungated (rank_of acq_rank_hint) "
-                "(sub_hint acq_sub_rank_hints) (checked_sites_of known_keys acquisitions)).\nPrint NBADGATE.\n")
+                "(sub_hint acq_sub_rank_hints) (checked_sites_of known_keys acquisitions)).\nPrint NBADGATE.\n"
+                # round 6: lock balance per function path; the functions one of whose witness paths
+                # does not end its sections, as Coq evaluates them (Proofs/LockTableBalance.v)
+                "From AGH Require Import Model.LockBalance Proofs.ConcBalance Proofs.LockTableBalance Gen.LockTableBalance.\n"
+                "Definition BADBAL := Eval vm_compute in map bf_fn (filter (fun f => negb (fn_ok f)) balance_fns).\nPrint BADBAL.\n")
     rc, out = ctx.run(["coqc", "-Q", ctx.COQ, "AGH", "-w", "none", src], cwd=ctx.workdir, timeout=900)
     if rc != 0:
-        return None, None, None, out
+        return None, None, None, None, out
     flat = " ".join(out.split())
     m = re.search(r"BADACC = (.*?) : list", flat)
     n = re.search(r"NBADORD = (\d+)", flat)
     g = re.search(r"NBADGATE = (\d+)", flat)
-    if not m or not n or not g:
-        return None, None, None, out
+    bb = re.search(r"BADBAL = (.*?) : list", flat)
+    if not m or not n or not g or not bb:
+        return None, None, None, None, out
     pairs = re.findall(r'\("([^"]*)"(?:%string)?,\s*"([^"]*)"(?:%string)?\)', m.group(1))
-    return pairs, int(n.group(1)), int(g.group(1)), out
+    badbal = re.findall(r'"([^"]*)"', bb.group(1))
+    return pairs, int(n.group(1)), int(g.group(1)), badbal, out
 
 
 def _sccs(edges):
@@ -523,10 +529,10 @@ def extra(ctx):
     known = set(tbl.get("known_keys") or [])
 
     # ---- accesses outside their guard, as Coq evaluates them
-    pairs, nbadord, nbadgate, out = _coq_eval(ctx)
+    pairs, nbadord, nbadgate, badbal, out = _coq_eval(ctx)
     if pairs is None:
         ctx.fail("proof", "evaluation of bad_accesses on the regenerated table failed", detail=out[-3000:])
-        pairs, nbadord, nbadgate = [], None, None
+        pairs, nbadord, nbadgate, badbal = [], None, None, None
     bykeypos = {}
     for a in accesses:
         bykeypos.setdefault((a["key"], a["pos"]), a)
@@ -622,6 +628,49 @@ def extra(ctx):
                  % (u[0], u[1]), finding_key="unresolved:" + u[0], failing_input_found=True,
                  detail={"case": {"id": "unresolved-%d" % i, "desc": {"kind": "unresolved", "item": u}}})
 
+    # ---- round 6: lock balance per function path (tools/locktable/balance.go).  A row = a path of ONE
+    # function from an acquisition to a return / explicit panic that does not release the lock.
+    bal = tbl.get("balance") or {}
+    if not bal:
+        ctx.fail("translator", "tools/locktable produced no balance section (old binary? rebuild tools/bin/locktable)")
+    brows = [r for r in bal.get("rows") or [] if not r.get("allowed")]
+    bunres = bal.get("unresolved") or []
+    bad_fns = sorted({r["fn"] for r in brows})
+    if badbal is not None and sorted(set(badbal)) != bad_fns:
+        ctx.fail("translator", "balance: the translator's rows and the Coq evaluation of fn_ok disagree (Coq: %s; translator: %s)"
+                 % (sorted(set(badbal))[:6], bad_fns[:6]))
+    byfn = {f["fn"]: f for f in bal.get("functions") or []}
+    seen = set()
+    for r in brows:
+        k = (r["class"], r["fn"], r["lock"], r["exit_pos"])
+        if k in seen:
+            continue
+        seen.add(k)
+        mode = "write" if r["w"] else "read"
+        if r["class"] == "leak":
+            consequence = ("the next Lock() of it waits for ever and, a pending writer blocking new readers, so does every later RLock(): DNS serving stalls"
+                           if not r["w"] else "every later Lock() / RLock() of it waits for ever")
+            what = "lock leak: %s acquires %s (%s) at %s and reaches the %s at %s without releasing it (its other exits release it); %s" % (
+                r["fn"], r["lock"], mode, r["acq_pos"], r["exit_kind"], r["exit_pos"], consequence)
+        elif r["class"] == "undeclared-handover":
+            what = "lock balance: %s: %s (%s %s, %s at %s, %s at %s)" % (r["fn"], r["what"], r["lock"], mode, "first event", r["acq_pos"], r["exit_kind"], r["exit_pos"])
+        elif r["class"] == "handover-mismatch":
+            what = "lock balance: %s: %s (%s at %s)" % (r["fn"], r["what"], r["exit_kind"], r["exit_pos"])
+        else:
+            what = "lock balance undecided (%s): %s, %s (%s) acquired / released at %s, %s at %s: %s" % (
+                r["class"], r["fn"], r["lock"], mode, r["acq_pos"], r["exit_kind"], r["exit_pos"], r["what"])
+        f = byfn.get(r["fn"]) or {}
+        ctx.fail("property-failure", what, finding_key="balance:" + r["key"], failing_input_found=True,
+                 detail={"case": {"id": _hid("balance", "|".join(k)), "desc": {
+                     "kind": "a path of one function from an acquisition to an exit that does not release the lock",
+                     "row": r, "function_reached_from_a_root": r.get("reached"),
+                     "all_exits_of_the_function": f.get("exits"),
+                     "machine": "Props/C05.v, C05_leaked_read_lock_stalls: such a thread, one writer and one later reader reach a stuck, unfinished state"}}})
+    for i, u in enumerate(bunres):
+        ctx.fail("property-failure", "lock balance: %s at %s could not be decided by the translator (not whitelisted in tools/locktable/handover.json)"
+                 % (u[0], u[1]), finding_key="balance-" + u[0], failing_input_found=True,
+                 detail={"case": {"id": "balance-unresolved-%d" % i, "desc": {"kind": "unresolved-balance", "item": u}}})
+
     # ---- search for a failing schedule
     stress = []
     if ctx.tier == "thorough":
@@ -640,8 +689,10 @@ def extra(ctx):
     present = {a["key"] for a in accesses} | {okey(o) for o in orders}
     checked_acc = [a for a in accesses if a["key"] not in known]
     acqs_all = tbl.get("acquisitions") or []
-    ctx.extra_obligations += len(checked_acc) + len(live) + 1 + len(acqs_all)
-    ctx.extra_discharged += (len(checked_acc) - n_bad_new) + (len(live) - len(bad_orders)) + (0 if unresolved else 1) + (len(acqs_all) - (nbadgate or 0))
+    n_exits = bal.get("exit_states_checked") or 0
+    ctx.extra_obligations += len(checked_acc) + len(live) + 1 + len(acqs_all) + n_exits + 1
+    ctx.extra_discharged += ((len(checked_acc) - n_bad_new) + (len(live) - len(bad_orders)) + (0 if unresolved else 1) + (len(acqs_all) - (nbadgate or 0))
+                             + max(0, n_exits - len(brows)) + (0 if bunres else 1))
     fields = sorted({a["field"] for a in accesses})
     ctx.extra_coverage.update({
         "exhaustive": False,
@@ -675,6 +726,20 @@ def extra(ctx):
             "fresh_receiver_accesses_skipped": sorted((tbl.get("fresh_receiver_accesses_skipped") or {}).keys()),
             "known_findings_still_present": sorted(known & present),
             "known_findings_no_longer_present": sorted(known - present),
+            # round 6: lock balance per function path
+            "balance": {
+                "functions_analysed": bal.get("functions_analysed"),
+                "functions_with_lock_events": bal.get("functions_with_lock_events"),
+                "exit_states_checked": n_exits,
+                "of_which_at_explicit_panics": bal.get("panic_exits_checked"),
+                "rows_not_balanced": len(brows),
+                "unresolved": len(bunres),
+                "declared_handovers": [{"fn": h.get("fn"), "releases": h.get("releases"), "acquires": h.get("acquires")} for h in bal.get("handovers_declared") or []],
+                "declared_handovers_not_called": bal.get("handovers_declared_but_not_called") or [],
+                "closures_whose_effects_count_in_their_callers": bal.get("closures_whose_effects_count_in_their_callers") or [],
+                "whitelist_entries_used": bal.get("allowed_entries_used") or [],
+                "whitelist_entries_not_needed": bal.get("allowed_entries_not_needed") or [],
+            },
         },
         "stress": stress,
         "reverted_repairs": _reverts(ctx),
